@@ -6,6 +6,7 @@ import Driver.ParseCmd
 import Driver.RunCmd
 import Driver.ObjCmd
 import Driver.GcCmd
+import Driver.FlagCmd
 /-!
 # Line-protocol driver over the executable models
 
@@ -29,6 +30,7 @@ def step (s : DState) (line : String) : DState × String :=
   | ["ovl", c, a] => (s, ovlLine c a)
   | ["gen", t] => (s, genLine t)
   | ["heap", o, sc] => (s, heapLine o sc)
+  | ["flag", n, o] => (s, flagLine n o)
   | _ => (s, "bad-op")
 
 partial def loop (h : IO.FS.Stream) (out : IO.FS.Stream) (s : DState) : IO Unit := do
